@@ -21,7 +21,9 @@ Oracle (purely differential, no hand-written expectation):
     the eager call;
   * the three eager fillings agree with each other;
   * no ConcretizationTypeError / TracerBoolConversionError /
-    TracerArrayConversionError / TracerIntegerConversionError ever escapes;
+    TracerArrayConversionError / TracerIntegerConversionError is ever raised, not
+    even when jaxtyping or the typechecker catches it and re-raises something else
+    (the __cause__ / __context__ chain of the escaping exception is searched);
   * the body runs exactly once per trace (once when accepted, never more than
     once, and as often as in the eager call).
 """
@@ -42,13 +44,11 @@ S = [(), (1,), (2,), (3,), (1, 2), (2, 2), (2, 3), (3, 2), (1, 1, 2)]
 # stated subsets
 D6 = ["a", "a b", "#a", "*v a", "#a *#v", "... a"]
 D4 = ["a", "#a b", "*v a", "#a *#v"]
-S6 = [(), (2,), (3,), (1, 2), (2, 2), (3, 2)]
 S5 = [(), (2,), (1, 2), (2, 2), (3, 2)]
 S4 = [(2,), (1, 2), (2, 2), (3, 2)]
 S3 = [(2,), (1, 2), (2, 2)]
 S2 = [(2,), (2, 2)]
 D3 = ["a", "*v a", "#a *#v"]
-RETS6 = ["a", "a b", "*v a", "#a *#v", "a+1", "a*b"]
 RETS4 = ["a", "*v a", "a+1", "a*b"]
 # ret_shape: a literal shape, or "like0" = the shape of the first array (leaf) the body receives
 RS3 = ["like0", (2,), ()]
@@ -108,7 +108,7 @@ def families(tier):
         fam("tree2", [(pq, r) for pq in [(T, T), (T, Q), (T, A), (Q, Q), (U, T), (A, T)] for r in (None, "a")], TREE_LEAF_SHAPES, RS2, T_ALL, trees=trees2)
         fam("k1_tbf_auto", sig([D6], [None, "a"]), S, RS2, T_ALL, tbf="auto")
     else:
-        fam("k1", sig([D6 + ["*v"]], [None, "a", "*v a", "a+1"]), S, RS3, T_ALL)
+        fam("k1", sig([D6 + ["*v"]], [None, "a", "*v a", "a+1"]), S, ["like0", (2,)], T_ALL)
         fam("k2", sig([D2, D2], [None]), S3, RS2, T_ALL)
         fam("k2ret", sig([["a b", "*v a"], ["a b", "*v a"]], ["a", "a*b"]), S3, RS2, T_BASIC)
         fam("k3", sig([D2, D2, D2], [None]), S2, RS2, T_BASIC)
